@@ -104,13 +104,27 @@ def optKind (n : Nat) : OptKind :=
   else if [6, 7, 12, 13, 14, 16, 17, 23, 27, 28, 60, 258].contains n then .uint
   else .opaque
 
+/-- `int.from_bytes(raw, "big")` written back on the minimal number of bytes
+(`_to_minimum_bytes`, optiontypes.py:11): the same bytes without leading zero bytes -/
+def stripZeros : Bytes → Bytes
+  | [] => []
+  | b :: rest => if b = 0 then stripZeros rest else b :: rest
+
+/-- `_to_minimum_bytes(v)` for a number: big-endian, no leading zero byte, zero is empty.
+(Fuel `v` is more than enough: the value shrinks by a factor 256 per byte.) -/
+def minBEAux : Nat → Nat → Bytes → Bytes
+  | 0, _, acc => acc
+  | fuel + 1, v, acc => if v = 0 then acc else minBEAux fuel (v / 256) (v % 256 :: acc)
+
+def minBE (v : Nat) : Bytes := minBEAux v v []
+
 /-- `option_number.create_option(decode=raw)` followed by `option.encode()`: the encoded form of
 the option object that ends up on the message; `none` = the value cannot be decoded
 (UnicodeDecodeError, reported as UnparsableMessage by `Options.decode`, options.py:183-187). -/
 def decodeVal (num : Nat) (raw : Bytes) : Option Bytes :=
   match optKind num with
   | .str => if utf8Valid raw then some raw else none
-  | .uint => some (natToMinBE (beToNat raw))
+  | .uint => some (stripZeros raw)
   | .opaque => some raw
 
 -- ---------------------------------------------------------------------------------------------
